@@ -72,6 +72,14 @@ func weightsOf(pattern string, idx int) (has bool, leader, region float64) {
 		has = true
 	case "alt":
 		has = idx%2 == 0
+	case "reset": // saved twice: first 2.5 / 0.5, then back to the default 1 for one or both weights
+		switch idx % 3 {
+		case 0:
+			return true, 1, 1
+		case 1:
+			return true, 1, 0.75
+		}
+		return true, 1.5, 1
 	}
 	if !has {
 		return false, 1, 1
@@ -123,6 +131,11 @@ func runStores(w *world, in bulkIn) *hist.Violation {
 	for idx := 0; idx < in.n; idx++ {
 		if err := save(idx, 1); err != nil {
 			return infra(ctx, err)
+		}
+		if in.weights == "reset" {
+			if err := w.st.SaveStoreWeight(idOf(in.ids, idx, in.n), 2.5, 0.5); err != nil {
+				return infra(ctx, err)
+			}
 		}
 		if has, l, r := weightsOf(in.weights, idx); has {
 			if err := w.st.SaveStoreWeight(idOf(in.ids, idx, in.n), l, r); err != nil {
@@ -281,6 +294,15 @@ func runRegions(w *world, in bulkIn) *hist.Violation {
 			return infra(ctx, err)
 		}
 		ack()
+	case "switch":
+		// the configuration is reloaded while regions wait in the region storage's batch:
+		// default storage selected, Flush (must still make them durable), region storage again
+		w.st.SwitchToDefaultStorage()
+		if err := w.st.Flush(); err != nil {
+			return infra(ctx, err)
+		}
+		w.st.SwitchToRegionStorage()
+		ack()
 	default:
 		if err := w.st.Flush(); err != nil {
 			return infra(ctx, err)
@@ -388,7 +410,7 @@ func storeInputs(tier string) []bulkIn {
 				if n == 0 && ids != "dense1" {
 					continue
 				}
-				for _, wt := range []string{"none", "all", "alt"} {
+				for _, wt := range []string{"none", "all", "alt", "reset"} {
 					for _, v := range []string{"plain", "del", "over"} {
 						l = append(l, bulkIn{kind: "store", backend: be, n: n, ids: ids, weights: wt, variant: v})
 					}
@@ -490,6 +512,12 @@ func regionInputs(tier string) []bulkIn {
 			for _, ids := range []string{"dense1", "top"} {
 				l = append(l, bulkIn{kind: "region", backend: "mem", n: c.n, ids: ids, variant: "plain", L: c.L, failAt: k})
 			}
+		}
+	}
+	// region storage: the backend selection changes between the saves and the Flush
+	for _, n := range []int{1, 7, 99, 100, 101, 250} {
+		for _, once := range []bool{false, true} {
+			l = append(l, bulkIn{kind: "region", backend: "rs", n: n, ids: "dense1", variant: "switch", once: once})
 		}
 	}
 	// region storage: an unreadable record at the first LoadRegionsOnce, repaired before the retry
